@@ -1,12 +1,19 @@
 """C30 - protocol source diffs apply and revert exactly.  Spec: UniDiff.tla."""
-import hashlib, re
+import hashlib, json, os, re
 
-from ..tlaparse import to_json, to_tla
+from ..tlaparse import to_json
 from ..tlc import MachineryError
 
 MC = """---- MODULE UniDiffMC ----
 EXTENDS UniDiff
-GivenV == %s
+GivenV == {}
+====
+"""
+# implementation patches reach TLC as JSON (arrays become tuples): a module literal of that size takes SANY longer than the check itself
+MC_GIVEN = """---- MODULE UniDiffGiven ----
+EXTENDS UniDiff, Json, IOUtils
+GivenRaw == JsonDeserialize(IOEnv.GIVEN_FILE)
+GivenV == {GivenRaw[k] : k \\in DOMAIN GivenRaw}
 ====
 """
 CFG = """SPECIFICATION Spec
@@ -184,8 +191,10 @@ def validate_given(ctx, entries, name):
     """entries: list of (a, b, n, abstract patch, info).  TLC runs Valid and the apply automaton on every patch."""
     if not entries:
         return 0
-    gen = {'UniDiffMC': MC % ('{' + ',\n'.join(to_tla((k + 1, a, b, n, p)) for k, (a, b, n, p, _) in enumerate(entries)) + '}')}
-    r = ctx.tlc('UniDiffMC', CFG_GIVEN, gen=gen, name=name, timeout=1500, coverage=False, workers=WORKERS)
+    path = os.path.join(ctx.wd, name + '.json')
+    with open(path, 'w') as f:
+        json.dump([to_json((k + 1, a, b, n, p)) for k, (a, b, n, p, _) in enumerate(entries)], f)
+    r = ctx.tlc('UniDiffGiven', CFG_GIVEN, gen={'UniDiffGiven': MC_GIVEN}, name=name, timeout=1500, coverage=False, workers=WORKERS, env={'GIVEN_FILE': path})
     if r.violation:
         raise MachineryError('given-mode run must not stop on an invariant: %s\n%s' % (r.violation, r.output[-1500:]))
     ok = {(v[1], v[2]) for v in r.printed if v[0] == 'OUT'}
@@ -236,7 +245,7 @@ def protocol_clause(ctx, a, b, n, pool, kind):
 
 
 def enumerate_and_replay(ctx, mode, lines, canon, name, entries, seen_pairs, impl_diffs=True, coverage=True):
-    gen = {'UniDiffMC': MC % '{}'}
+    gen = {'UniDiffMC': MC}
     r = ctx.tlc('UniDiffMC', CFG % dict(lines=lines, mode=mode, canon='TRUE' if canon else 'FALSE'), gen=gen, name=name, timeout=3000, coverage=coverage, workers=WORKERS)
     ctx.require_no_violation(r, name)
     if coverage:
